@@ -43,8 +43,24 @@ RULE = ("dense / sparse / Kruskal / Tucker / sum holders of small-integer data o
         "(DTYPE_PENDING: single-precision rounding, tagged pending-deviation, not a defect); tensor.ttt and sparse "
         "scale on same-typed non-float64 operands are the known findings K02-ttt-storage-dtype / "
         "K02-sp-scale-storage-dtype, accepted only when the result is exactly numpy's arithmetic in that type; "
-        "the same array held five ways; plus a malformed stream (wrong sizes, contradictory mode "
-        "designations). Each implementation result is compared with the Lean spec value (sum over indices) and with "
+        "the same array held five ways; "
+        "family ttsv: tensor.ttsv ALWAYS on every cubical shape of order 1..5 (extents 1..3, order 5 with extent 3 and "
+        "extent 4 in the thorough tier) x skip_dim absent / 0 .. N-1 x version absent / 1 / 2, vectors with zeros and "
+        "negative entries handed over as 1-d array / list / tuple / column / row, skip_dim positional or keyword; "
+        "non-cubical shapes whose multiplied modes match the vector (valid under version=1, refused by the default); "
+        "refused requests (skip_dim -2 / -1 / N / N+1, version 0 / 3, non-cubical, wrong vector length) and the wrong "
+        "vector length that is never looked at (nothing multiplied); result kind asserted (scalar / 1-d / 2-d array / "
+        "tensor; the extent-1 skip_dim=0 scalar of the default version is the known finding K02-ttsv-extent1-scalar), "
+        "and ttsv in the dtypes family (default version on same-typed narrow data and vector = known finding "
+        "K02-ttsv-storage-dtype, accepted only when the result is numpy's arithmetic in that type); "
+        "family tucker_sparse_core: innerprod / norm / mttkrp of a Tucker tensor whose core is an sptensor storing "
+        "nothing / one entry / half / every entry in every stored order, non-cubical cores, factors with negative "
+        "entries; other operand dense / sparse / Kruskal / Tucker with a dense or sparse core, both call orders; ALWAYS "
+        "one case per outcome of the size switches (tensor smaller / equal / larger than the core, first core larger / "
+        "equal / smaller) x sparsity class; mttkrp for every mode n with a factor list and a Kruskal operand (every "
+        "weight pattern); "
+        "plus a malformed stream (wrong sizes, contradictory mode designations, a mode listed twice, a mode index that "
+        "is not a mode, factor lists of the wrong length). Each implementation result is compared with the Lean spec value (sum over indices) and with "
         "the Lean model. non-trivial = accepted and operand has a non-zero entry; distinct = distinct case hash")
 ASSUMPTIONS = [
     "values are small integers, so every float operation of the implementation is exact (dtypes family: the "
@@ -843,7 +859,8 @@ def spec_sel(N, mults, dims, excl, conv, sel):
 class TtvFam(C02Family):
     name = "ttv"
     theorems = ("C02_ttv_dense", "C02_ttv_dense_dims", "C02_ttv_sparse", "C02_ttv_sparse_dims", "C02_ttv_spec_set",
-                "C02_dims_any_order", "C02_exclude_dims", "C02_list_len_P", "C02_list_len_N_vs_P")
+                "C02_dims_any_order", "C02_exclude_dims", "C02_list_len_P", "C02_list_len_N_vs_P",
+                "C02_ttv_kruskal_rejects_repeated_mode", "C02_sum_rejects")
 
     def case(self, rng, X, sel, conv, shuffle=True, tag=()):
         shape = h_shape(X)
@@ -949,11 +966,16 @@ class TtvFam(C02Family):
             X = rand_holder(rng, rng.choice(kinds), shape)
             sel = rng.choice(subsets(N))
             c = self.case(rng, X, sel, "dimsP", shuffle=False)
-            how = rng.choice(["size", "both", "count"])
+            how = rng.choice(["size", "both", "count", "repeated"])
             if how == "size":
                 c["vs"][0] = c["vs"][0] + [1]
             elif how == "both":
                 c["excl"] = [0]
+            elif how == "repeated":     # a mode listed twice, with a vector of the right length for each listing
+                d0 = c["dims"][0]
+                c["dims"] = list(c["dims"]) + [d0]
+                c["vs"] = list(c["vs"]) + [list(c["vs"][0])]
+                c["tag"] = list(c["tag"]) + ["bad:repeated-mode"]
             else:
                 if len(c["vs"]) + 1 == N:
                     c["vs"] = c["vs"] + [[1]] + [[1]]
@@ -970,7 +992,7 @@ class TtmFam(C02Family):
     name = "ttm"
     theorems = ("C02_ttm_dense_mode", "C02_ttm_dense", "C02_ttm_spec_peel", "C02_ttm_sparse_mode", "C02_ttm_sparse",
                 "C02_ttm_sparse_eq_dense", "C02_ttm_tucker", "C02_dims_any_order", "C02_exclude_dims",
-                "C02_list_len_P", "C02_list_len_N_vs_P")
+                "C02_list_len_P", "C02_list_len_N_vs_P", "C02_ttm_tucker_rejects")
 
     def case(self, rng, X, sel, conv, tr, single=False):
         shape = h_shape(X)
@@ -1047,7 +1069,8 @@ def with_layouts(rng, cases):
 class MttkrpFam(C02Family):
     name = "mttkrp"
     theorems = ("C02_mttkrp_dense", "C02_mttkrp_dense_kruskal", "C02_mttkrp_weights_spec", "C02_mttkrp_sparse",
-                "C02_mttkrp_parts", "C02_mttkrp_parts_kruskal_eq_list", "C02_mttkrp_sum", "C02_mttkrp_sum_kruskal")
+                "C02_mttkrp_parts", "C02_mttkrp_parts_kruskal_eq_list", "C02_mttkrp_sum", "C02_mttkrp_sum_kruskal",
+                "C02_get_mttkrp_factors_rejects", "C02_mttkrp_parts_rejects", "C02_mttkrp_tucker_rejects", "C02_sum_rejects")
 
     def gen(self, rng, tier):
         out = []
@@ -1075,6 +1098,25 @@ class MttkrpFam(C02Family):
             U["list"][m] = U["list"][m] + [U["list"][m][0]]
             out.append({"op": "mttkrp", "X": rand_holder(rng, rng.choice(kinds), shape), "U": U, "n": n, "fs": fs,
                         "lam": lam, "valid": False})
+        for _ in range(4 if tier == "quick" else 30):  # malformed: n is not a mode / a list with one factor too many or too few
+            shape = pick_shape(rng, 2, 3)
+            N = len(shape)
+            ask = rng.random() < 0.4
+            U, fs, lam = k_operand(rng, shape, ask)
+            kind = rng.choice(kinds)
+            how = rng.choice(["mode", "count"])
+            if how == "mode":
+                n = N + rng.choice([0, 1])
+            else:
+                n = rng.randrange(N)
+                key = "kruskal" if ask else "list"
+                L = U[key]["factors"] if ask else U[key]
+                if rng.random() < 0.5:
+                    L.append([list(r) for r in L[-1]])
+                else:
+                    L.pop()
+            out.append({"op": "mttkrp", "X": rand_holder(rng, kind, shape), "U": U, "n": n, "fs": fs, "lam": lam,
+                        "valid": False, "tag": [f"bad:{how}"]})
         return with_layouts(rng, out)
 
 
@@ -1121,7 +1163,7 @@ class MttkrpsFam(C02Family):
 class InnerFam(C02Family):
     name = "innerprod"
     theorems = ("C02_innerprod_dense", "C02_innerprod_sparse_sparse", "C02_innerprod_sparse_dense",
-                "C02_norm_dense", "C02_norm_sparse")
+                "C02_norm_dense", "C02_norm_sparse", "C02_innerprod_parts_rejects")
 
     def gen(self, rng, tier):
         out = []
@@ -1875,7 +1917,8 @@ class SparseCoreFam(C02Family):
     name = "tucker_sparse_core"
     theorems = ("C02_innerprod_tucker_sparse_core", "C02_innerprod_tucker_sparse_core_tucker",
                 "C02_innerprod_tucker_sparse_core_kruskal", "C02_norm_tucker_sparse_core", "C02_mttkrp_tucker_sparse_core",
-                "C02_mttkrp_tucker_sparse_core_kruskal", "C02_tucker_sparse_core_eq_dense_core")
+                "C02_mttkrp_tucker_sparse_core_kruskal", "C02_tucker_sparse_core_eq_dense_core",
+                "C02_mttkrp_tucker_rejects", "C02_innerprod_parts_rejects")
 
     def other(self, rng, yk, shape, fill=None):
         """the second operand of innerprod"""
